@@ -420,10 +420,10 @@ func (v *RVal) plain() interface{} {
 	return nil
 }
 
-func rnum(f float64) *RVal  { return &RVal{kind: ajson.Numeric, num: f} }
-func rbool(b bool) *RVal    { return &RVal{kind: ajson.Bool, b: b} }
-func rstr(s string) *RVal   { return &RVal{kind: ajson.String, str: s} }
-func rnull() *RVal          { return &RVal{kind: ajson.Null} }
+func rnum(f float64) *RVal                  { return &RVal{kind: ajson.Numeric, num: f} }
+func rbool(b bool) *RVal                    { return &RVal{kind: ajson.Bool, b: b} }
+func rstr(s string) *RVal                   { return &RVal{kind: ajson.String, str: s} }
+func rnull() *RVal                          { return &RVal{kind: ajson.Null} }
 func isKind(v *RVal, k ajson.NodeType) bool { return v != nil && v.kind == k }
 
 func (v *RVal) integer() (int, error) {
